@@ -368,3 +368,21 @@ Theorem C08_extended_routing_history :
     routed_ok c p it0 i s h.
 Proof. exact @extended_routing_history. Qed.
 Print Assumptions C08_extended_routing_history.
+
+(* ---- seeded change C08_6: the hidden Jacobian force under multiple time stepping ---------------------------- *)
+
+(* colvar::update_forces_energy with hideJacobian: f = fb - fj * timeStepFactor (if the variable applies forces) + fb_actual.
+   For a variable with factor n whose biases (same factor) hand it n * F at its awake steps: every window of the schedule
+   (one awake step, any number of sleeping steps) delivers n times the instantaneous force (biases - hidden Jacobian force). *)
+Theorem C08_hidden_jacobian_impulse :
+  forall (n : Z) (hide apply : bool) (F Fa fj : R) (k : nat),
+    rsumR (jac_trace Rops true n hide apply (window_of (F, (Fa, fj)) k))
+    = IZR n * ((F + Fa) - (if hide && apply then fj else 0)).
+Proof. exact hidden_jacobian_impulse. Qed.
+Print Assumptions C08_hidden_jacobian_impulse.
+
+(* the variant that subtracts fj once (the seeded change) does not *)
+Theorem C08_hidden_jacobian_unscaled_refuted :
+  exists (n : Z) (F Fa fj : R),
+    rsumR (jac_trace Rops false n true true (window_of (F, (Fa, fj)) 1)) <> IZR n * ((F + Fa) - fj).
+Proof. exact hidden_jacobian_unscaled. Qed.
